@@ -203,8 +203,46 @@ func C08Scenarios() []sched.Scenario {
 	for _, c := range cs {
 		out = append(out, c.scenario())
 	}
-	out = append(out, txnCommitVsSet(), blockReadVsTxnCommit(false, false), blockReadVsTxnCommit(true, false), blockReadVsTxnCommit(false, true), blockReadVsRewrite())
+	out = append(out, txnCommitVsSet(), blockReadVsTxnCommit(false, false), blockReadVsTxnCommit(true, false), blockReadVsTxnCommit(false, true), blockReadVsRewrite(), commitVsForgetAndRemoval())
 	return out
+}
+
+// commitVsForgetAndRemoval: block P (k=v1) commits while another goroutine first makes the cache forget k
+// (StateCache.Remove: the key's whole per-block map is dropped) and then commits P's child C, which removes k.
+// C's removal comes after the forgetting, so nothing may bring k back at C: every lookup of k at C, during
+// and after, must miss.
+func commitVsForgetAndRemoval() sched.Scenario {
+	return sched.Scenario{Name: "S18-commit-vs-forget-then-child-removal", Doc: "G:k=1 <- A; commit(P on A: k=v1) || { StateCache.Remove(k); commit(C on P: remove k) } || Get(k,C)",
+		Make: func() ([]func(), func() (string, string)) {
+			sc := statecache.NewStateCache()
+			for _, b := range base {
+				mkBlock(sc, b).Commit()
+			}
+			p := mkBlock(sc, blk{hash: "P", prev: "A", sets: map[string]string{"k": "v1"}})
+			c := mkBlock(sc, blk{hash: "C", prev: "P", removes: []string{"k"}})
+			var seen string
+			bodies := []func(){
+				func() { p.Commit() },
+				func() { sc.Remove("k"); c.Commit() },
+				func() { seen = show(sc.Get("k", "C")) },
+			}
+			judge := func() (string, string) {
+				fail := ""
+				// the concurrent lookup may run before C's commit: then it sees whatever the chain below C holds
+				if seen != "miss" && seen != "v1" && seen != "1" {
+					fail = "the concurrent lookup k@C returned " + seen
+				}
+				after := show(sc.Get("k", "C"))
+				if after != "miss" && fail == "" {
+					fail = "after both commits returned, lookup k@C = " + after + "; block C removed k after the cache had been made to forget the key, so nothing can hold an older value for C"
+				}
+				if child := show(statecache.NewBlockCache(sc, statecache.Block{Hash: "D", PrevHash: "C"}).Get("k")); child != "miss" && fail == "" {
+					fail = "a child block of C reads k = " + child + "; C removed k"
+				}
+				return "seen=" + seen + " after=" + after, fail
+			}
+			return bodies, judge
+		}}
 }
 
 // mval is a mutable cache value (as trie nodes are): Clone copies, CopyFrom overwrites in place.
